@@ -386,3 +386,133 @@ Proof.
   split; [split; [lia|split; [discriminate|split; vm_compute; reflexivity]]|].
   eexists. split; vm_compute; reflexivity.
 Qed.
+
+(* ---- the "if" half for scanning loops: a region reached over plain steps is skipped whole and sets the flag ------------ *)
+Lemma with_tmpl_inv2 {S R} c (cur : S -> lx) (setc : S -> lx -> S) (I : S * bool -> Prop) (Q : R * bool -> Prop)
+      (body : S -> res (lp S R)) :
+  (forall s h z', I (s, h) -> tmpl_at c (cur s) = Ok true -> tmpl_skip c (cur s) = Ok z' -> I (setc s z', true)) ->
+  (forall s h x, I (s, h) -> tmpl_at c (cur s) = Ok false -> body s = Ok x -> match x with Cont s' => I (s', h) | Brk r => Q (r, h) end) ->
+  forall fuel sh r, I sh -> loop fuel (with_tmpl c cur setc body) sh = Ok r -> Q r.
+Proof.
+  intros Ht Hb fuel sh r Hi H.
+  refine (loop_inv I Q (with_tmpl c cur setc body) _ fuel sh r Hi H).
+  clear Hi H. intros [s h] x Hs Hx. unfold with_tmpl, skip_tmpl in Hx.
+  destruct (tmpl_at c (cur s)) as [t| |] eqn:Et; cbn [rbind] in Hx; try discriminate.
+  destruct t.
+  - destruct (tmpl_skip c (cur s)) as [z'| |] eqn:Ek; cbn [rbind] in Hx; try discriminate. injection Hx as <-. eapply Ht; eauto.
+  - cbn [rbind] in Hx. destruct (body s) as [y| |] eqn:Eb; cbn [rbind] in Hx; try discriminate. injection Hx as <-.
+    specialize (Hb s h y Hs Et Eb). destruct y; exact Hb.
+Qed.
+
+Lemma tmpl_at_zat c d l a : cfg_ok c -> tb c <> [] -> html_inv d l -> lpos (lz l) <= a <= len d ->
+  tmpl_at c (zat l a) = Ok (prefixb (tb c) (skipz a d)).
+Proof.
+  intros Hc Htb Hi Ha. destruct (zat_wf d l a Hi Ha) as [Hw Hrem]. unfold tmpl_at. rewrite (has_delims_true c Htb).
+  rewrite at_rem by (apply Hc || exact Hw). rewrite Hrem. reflexivity.
+Qed.
+
+Lemma scan_reach_done c d l body p q fuel a h rh : cfg_ok c -> tb c <> [] -> html_inv d l -> is_region c d p q ->
+  lpos (lz l) <= a <= p -> scan_fwd body ->
+  (forall i, a <= i < p -> prefixb (tb c) (skipz i d) = false -> body (zat l i) = Ok (Cont (zat l (i + 1)))) ->
+  (forall i, a <= i < p -> prefixb (tb c) (skipz i d) = false) ->
+  loop fuel (with_tmpl_lx c body) (zat l a, h) = Ok rh ->
+  snd rh = true /\ q <= lpos (fst (fst rh)) + snd (fst rh).
+Proof.
+  intros Hc Htb Hi Hreg Ha Hfwd Hstep Hnp H. unfold with_tmpl_lx in H.
+  destruct (tmpl_here c d l p q Hc Hi ltac:(lia) Hreg) as (Hatp & Hskp & Hq).
+  set (I := fun sh : lx * bool => (snd sh = true /\ samele (lz l) (fst sh) /\ q <= lpos (fst sh)) \/
+                                  (samele (lz l) (fst sh) /\ a <= lpos (fst sh) <= p)).
+  refine (with_tmpl_inv2 c (fun z : lx => z) (fun _ z' => z') I (fun r : lx * Z * bool => snd r = true /\ q <= lpos (fst (fst r)) + snd (fst r))
+            body _ _ fuel (zat l a, h) rh _ H).
+  - intros s h1 z' HI Hat Hk. unfold I in *. cbn [fst snd] in *. left. split; [reflexivity|].
+    destruct HI as [(_ & Hs & Hqs)|(Hs & Hr)].
+    + pose proof (tmpl_skip_run _ _ _ Hk) as Hkr. split; [eapply samele_trans; eauto|destruct Hkr; lia].
+    + destruct Hs as [Hsm Hle]. rewrite (same_zat l s Hsm) in Hat, Hk.
+      destruct (Z.eq_dec (lpos s) p) as [E|E].
+      * rewrite E, Hskp in Hk. injection Hk as <-. split; [split; [split; reflexivity|unfold zat; cbn [lpos]; lia]|unfold zat; cbn [lpos]; lia].
+      * exfalso. rewrite (tmpl_at_zat c d l (lpos s) Hc Htb Hi ltac:(lia)) in Hat. rewrite (Hnp (lpos s) ltac:(lia)) in Hat. discriminate.
+  - intros s h1 x HI Hat Hx. unfold I in *. cbn [fst snd] in *.
+    destruct HI as [(Hh & Hs & Hqs)|(Hs & Hr)].
+    + specialize (Hfwd s x Hx). destruct x as [s'|r]; cbn [fst snd].
+      * left. split; [exact Hh|]. split; [eapply samele_trans; eauto|destruct Hfwd; lia].
+      * split; [exact Hh|]. destruct Hfwd as [_ Hf]. cbn [mv lpos] in Hf. lia.
+    + destruct Hs as [Hsm Hle]. rewrite (same_zat l s Hsm) in Hat, Hx.
+      destruct (Z.eq_dec (lpos s) p) as [E|E].
+      * exfalso. rewrite E in Hat. unfold tmpl_at in Hat. rewrite (has_delims_true c Htb), Hatp in Hat. discriminate.
+      * rewrite (Hstep (lpos s) ltac:(lia) (Hnp (lpos s) ltac:(lia))) in Hx. injection Hx as <-. cbn [fst snd]. right.
+        split; [split; [split; reflexivity|unfold zat; cbn [lpos]; lia]|unfold zat; cbn [lpos]; lia].
+  - unfold I. cbn [fst snd]. right. split; [split; [split; reflexivity|unfold zat; cbn [lpos]; lia]|unfold zat; cbn [lpos]; lia].
+Qed.
+
+(* comments: "<!--" at the cursor, then bytes [a+4,p) at which neither a delimiter nor "-->" / "--!>" starts, then a region *)
+Definition comment_plain (c : cfg) (d : list Z) (i : Z) : Prop :=
+  0 <= i < len d /\ prefixb (tb c) (skipz i d) = false /\
+  prefixb [45; 45; 62] (skipz i d) = false /\ prefixb [45; 45; 33; 62] (skipz i d) = false.
+
+Lemma comment_step c d l i : cfg_ok c -> html_inv d l -> lpos (lz l) <= i -> comment_plain c d i ->
+  comment_body (zat l i) = Ok (Cont (zat l (i + 1))).
+Proof.
+  intros Hc Hi Ha ((Hi0 & Hi1) & _ & H3 & H4). destruct (zat_wf d l i Hi ltac:(lia)) as [Hw Hrem].
+  unfold comment_body. rewrite (zat_pkr d l i 0 Hi) by lia. cbn [rbind].
+  unfold eof0. rewrite (at_end_zat d l i Hi Hi1), andb_false_r.
+  rewrite at_rem by (try exact Hw; repeat constructor; lia). rewrite Hrem, H3. cbn [rbind].
+  rewrite at_rem by (try exact Hw; repeat constructor; lia). rewrite Hrem, H4. cbn [rbind]. reflexivity.
+Qed.
+
+Lemma html_template_comment_proof : forall c d l p q, cfg_ok c -> tb c <> [] -> html_inv d l -> intag l = false -> rawtag l = 0 ->
+  let a := lpos (lz l) in
+  prefixb (tb c) (skipz a d) = false -> prefixb [60; 33; 45; 45] (skipz a d) = true -> a + 4 <= p ->
+  (forall i, a + 4 <= i < p -> comment_plain c d i) -> is_region c d p q ->
+  exists v l', next c l = Ok (CommentT, Some v, l') /\ lhas l' = true /\ so v = a /\ q <= so v + sn v.
+Proof.
+  intros c d l p q Hc Htb Hi Hit Hraw a Hnp Hopen Hap Hplain Hreg.
+  pose proof Hi as (Hl & Hlen & _). pose proof Hl as [Hw _]. pose proof (lwf_clean l Hl Hit) as Hcl.
+  pose proof (inv_pos0 d l Hi) as H0. destruct (is_region_in _ _ _ _ Hreg) as [Hpin Hpq].
+  assert (Hlt0 : 0 < len (tb c)) by (destruct (tb c) as [|x t]; [congruence|rewrite len_cons; pose proof (len_nonneg t); lia]).
+  (* the four bytes "<!--" *)
+  assert (Hb4 : getz d a = 60 /\ getz d (a + 1) = 33 /\ skipz (a + 2) d = 45 :: 45 :: skipz (a + 4) d /\ a + 4 <= len d).
+  { pose proof (prefixb_len _ _ Hopen) as Hl4. change (len [60; 33; 45; 45]) with 4 in Hl4. pose proof Hl4 as Hl4'.
+    assert (Hal : a <= len d) by lia. rewrite len_skipz in Hl4 by lia.
+    destruct (skipz a d) as [|x0 [|x1 [|x2 [|x3 r]]]] eqn:Es; try (exfalso; unfold len in Hl4'; cbn [length] in Hl4'; lia).
+    cbn [prefixb] in Hopen. b2p. subst x0 x1 x2 x3.
+    assert (P0 : peekz d a = Some 60) by (rewrite <- (Z.add_0_r a), <- peekz_skipz by lia; rewrite Es; apply peekz_cons_0).
+    assert (P1 : peekz d (a + 1) = Some 33) by (rewrite <- peekz_skipz by lia; rewrite Es; apply peekz_1).
+    assert (P2 : peekz d (a + 2) = Some 45) by (rewrite <- peekz_skipz by lia; rewrite Es; apply peekz_2).
+    assert (P3 : peekz d (a + 3) = Some 45) by (rewrite <- peekz_skipz by lia; rewrite Es; apply peekz_3).
+    split; [unfold getz; rewrite P0; reflexivity|]. split; [unfold getz; rewrite P1; reflexivity|]. split; [|lia].
+    rewrite (skipz_peek_cons d (a + 2) 45 P2). replace (a + 2 + 1) with (a + 3) by lia.
+    rewrite (skipz_peek_cons d (a + 3) 45 P3). replace (a + 3 + 1) with (a + 4) by lia. reflexivity. }
+  destruct Hb4 as (G0 & G1 & Hsk2 & Ha4).
+  destruct (html_total_step_proof c d l Hc Hi) as (ty & tk & l' & Hn & Hi').
+  pose proof Hn as Hn0.
+  unfold next in Hn. cbn [lz rawtag intag lerr ltext lattr lhas] in Hn. rewrite Hit, Hraw in Hn. cbn [Z.eqb negb] in Hn.
+  unfold next_content in Hn. cbn [lz rawtag intag lerr ltext lattr lhas] in Hn.
+  (* the text loop dispatches at once *)
+  assert (Hdisp : loop (fuel_of (lz l)) (text_body c) (lz l) = Ok (lz l, DMarkup)).
+  { unfold fuel_of. cbn [loop]. replace (text_body c (lz l)) with (text_body c (zat l a)) by (unfold a; rewrite zat_here; reflexivity). unfold text_body.
+    rewrite (zat_pkr d l a 0 Hi) by lia. rewrite Z.add_0_r, G0. cbn [rbind].
+    rewrite (tmpl_at_zat c d l a Hc Htb Hi ltac:(lia)). fold a in Hnp. rewrite Hnp. cbn [rbind Z.eqb Pos.eqb].
+    rewrite (zat_pkr d l a 1 Hi) by lia. rewrite G1. cbn [rbind Z.eqb Pos.eqb negb andb].
+    change (is_letter 33) with false. cbn [negb andb].
+    replace (0 <? mark (zat l a)) with false by (symmetry; apply Z.ltb_ge; unfold mark, zat; cbn [lpos lstart]; lia).
+    cbn [rbind]. rewrite zat_here. reflexivity. }
+  rewrite Hdisp in Hn. cbn [rbind] in Hn.
+  unfold read_markup in Hn. replace (mv (lz l) 2) with (zat l (a + 2)) in Hn by (unfold zat, mv, a; reflexivity).
+  destruct (zat_wf d l (a + 2) Hi ltac:(lia)) as [Hw2 Hrem2].
+  rewrite at_rem in Hn by (try exact Hw2; repeat constructor; lia). rewrite Hrem2, Hsk2 in Hn. cbn [prefixb Z.eqb Pos.eqb andb rbind] in Hn.
+  replace (mv (zat l (a + 2)) 2) with (zat l (a + 4)) in Hn by (unfold zat, mv; cbn [lbuf lpos lstart]; f_equal; lia).
+  destruct (loop (fuel_of (zat l (a + 2))) (with_tmpl_lx c comment_body) (zat l (a + 4), false)) as [rh| |] eqn:El; cbn [rbind] in Hn; try discriminate.
+  assert (Hst : forall i, a + 4 <= i < p -> prefixb (tb c) (skipz i d) = false -> comment_body (zat l i) = Ok (Cont (zat l (i + 1)))).
+  { intros i Hr _. apply (comment_step c d l i Hc Hi); [unfold a in *; lia|apply Hplain; exact Hr]. }
+  assert (Hnps : forall i, a + 4 <= i < p -> prefixb (tb c) (skipz i d) = false) by (intros i Hr; apply (Hplain i Hr)).
+  destruct (scan_reach_done c d l comment_body p q (fuel_of (zat l (a + 2))) (a + 4) false rh Hc Htb Hi Hreg ltac:(unfold a in *; lia) comment_fwd Hst Hnps El) as [Hh Hqq].
+  cbn zeta in Hn.
+  destruct (lexeme_from (fst (fst rh)) 4) as [t| |]; cbn [rbind] in Hn; try discriminate.
+  destruct (shiftv (mv (fst (fst rh)) (snd (fst rh)))) as [s| |] eqn:Es; cbn [rbind] in Hn; try discriminate.
+  injection Hn as <- <- <-.
+  eexists _, _. split; [exact Hn0|]. cbn [lhas]. split; [exact Hh|].
+  pose proof (safe_eq _ _ _ (next_spec c l Hc Hl) Hn0) as Hs. cbn [step_post] in Hs.
+  destruct Hs as (_ & _ & _ & _ & (T1 & T2 & T3 & T4 & T5 & _ & T7 & _) & _). cbn [lz] in T4.
+  assert (so (fst s) = lpos (lz l)) by (destruct (Z.eq_dec (so (fst s)) (lpos (lz l))); [assumption|destruct T7 as [T7|T7]; [lia|discriminate|discriminate]]).
+  rewrite (shiftv_pos _ _ Es) in T4. cbn [mv lpos] in T4. unfold a. split; lia.
+Qed.
